@@ -16,7 +16,7 @@ KINDS = {
     'C01': ['coin-not-buildable', 'synced-height', 'total-balance', 'utxo-missing', 'utxo-extra', 'utxo-differs', 'utxo-duplicate',
             'utxo-confirmations', 'balance-total', 'balance-spendable', 'balance-wstaking', 'balance-wbinding',
             'address-balance-missing', 'address-balance-extra', 'address-balance-differs', 'use-wallet', 'api-error',
-            'died', 'timeout', 'step-error'],
+            'free-not-quiescent', 'died', 'timeout', 'step-error'],
     'C09': ['utxo-sbu', 'deposit-sbu', 'pending-deposit-missing', 'pending-deposit-extra', 'pending-deposit-differs',
             'pending-set-missing', 'pending-set-extra', 'pending-unreadable', 'pending-not-settled', 'selected-pending-spent',
             'died', 'timeout', 'step-error'],
@@ -224,7 +224,7 @@ def follower_check(pid, tier, scratch, replay, plan):
             uni = dict(r['universe'])
             uni.update(g.get('universe_extra', {}))
             for h in take:
-                jobs.append(dict(u=uni, h=json.loads(h), mode=g.get('mode', ''), opt=g.get('opt', {}), src=g['cfg'],
+                jobs.append(dict(u=uni, h=json.loads(h), mode=g.get('mode', ''), opt=dict(g.get('opt', {}), seed=vlib.seed() * 7 + len(jobs)), src=g['cfg'] + (' (free)' if g.get('mode') == 'free' else ''),
                                  ignore=PENDING_KINDS if ov.get('Lifecycle') == 'TRUE' else []))
             if not sim:
                 states += r.get('distinct', 0)
@@ -343,7 +343,14 @@ PLAN_C01 = dict(
               thorough=[SIM(600, 14)]),
           gen('Gen_In.cfg', 'MC_In.tla',
               quick=[SIM(50, 14), SIM(25, 16, **MS)],
-              thorough=[EXH(6, 3000), SIM(1200, 16), SIM(600, 18, **MS)])],
+              thorough=[EXH(6, 3000), SIM(1200, 16), SIM(600, 18, **MS)]),
+          # follower running freely: block steps overlap further chain changes, also in the middle of a step
+          gen('Gen_Pay.cfg', 'MC_Pay.tla', mode='free',
+              quick=[SIM(40, 16, **MS)],
+              thorough=[SIM(1500, 18, **MS), SIM(1000, 18)]),
+          gen('Gen_Stake.cfg', 'MC_Stake.tla', universe_extra=STAKE_X, mode='free',
+              quick=[SIM(30, 16)],
+              thorough=[SIM(1000, 18, **MS)])],
 )
 
 PLAN_C09 = dict(
@@ -375,6 +382,10 @@ PLAN_C10 = dict(
               thorough=[SIM(1000, 14), SIM(500, 14, **P)])],
     assume=['withdrawals of new-style bindings are never mined: the pinned mass-core AddrIndexer cannot attach such a block (Amount.AddInt underflow); they occur as unconfirmed transactions only'],
 )
+
+
+def no_crash(h):
+    return not any(s['a'] in ('Crash', 'Restart', 'RestartCrash', 'RemoveStepCrash') for s in h)
 
 
 def one_task_at_a_time(h):
@@ -430,8 +441,8 @@ LEDGER_KINDS = ['coin-not-buildable', 'synced-height', 'total-balance', 'utxo-mi
                 'balance-total', 'balance-spendable', 'balance-wstaking', 'balance-wbinding',
                 'address-balance-missing', 'address-balance-extra', 'address-balance-differs',
                 'deposit-missing', 'deposit-extra', 'deposit-differs', 'use-wallet', 'api-error', 'died', 'timeout', 'step-error']
-KINDS['C07'] = LEDGER_KINDS + ['wallet-status', 'unready-wallet-selectable', 'importing-wallet-removable', 'quiescent-not-on-best']
-KINDS['C08'] = LEDGER_KINDS + ['wallet-status', 'unready-wallet-selectable', 'removed-residue']
+KINDS['C07'] = LEDGER_KINDS + ['wallet-status', 'unready-wallet-selectable', 'importing-wallet-removable', 'quiescent-not-on-best', 'free-not-quiescent']
+KINDS['C08'] = LEDGER_KINDS + ['wallet-status', 'unready-wallet-selectable', 'removed-residue', 'free-not-quiescent']
 LIFE = {'Lifecycle': 'TRUE', 'InitAbsent': '{"w2"}', 'Removable': '{"w1", "w2"}'}
 IMPORT_ONLY = {'Lifecycle': 'TRUE', 'InitAbsent': '{"w2"}', 'Removable': '{}'}
 REMOVE_ONLY = {'Lifecycle': 'TRUE', 'InitAbsent': '{}', 'Removable': '{"w1", "w2"}'}
@@ -449,6 +460,9 @@ PLAN_C07 = dict(
           gen('Gen_Stake.cfg', 'MC_Stake.tla', universe_extra=STAKE_X,
               quick=[SIM(60, 16, **IMPORT_ONLY)],
               thorough=[SIM(1500, 18, **IMPORT_ONLY)]),
+          gen('Gen_Imp.cfg', 'MC_Imp.tla', mode='free',
+              quick=[SIM(40, 16, **IMPORT_ONLY)],
+              thorough=[SIM(1500, 18, **IMPORT_ONLY)]),
           gen('Gen_Imp.cfg', 'MC_Imp.tla', universe_extra=OFFSET, filter=one_task_at_a_time,
               quick=[dict(SIM(20, 14, **dict(IMPORT_ONLY, InitAbsent='{"w1", "w2"}')), sample=12), dict(SIM(12, 14, **IMPORT_ONLY), sample=8)],
               thorough=[dict(SIM(300, 16, **dict(IMPORT_ONLY, InitAbsent='{"w1", "w2"}')), sample=160), dict(SIM(150, 16, **IMPORT_ONLY), sample=80)])],
@@ -463,9 +477,19 @@ PLAN_C08 = dict(
               quick=[SIM(120, 14, **REMOVE_ONLY), SIM(60, 16, **dict(LIFE, Crashes='TRUE'))],
               thorough=[SIM(2000, 16, **REMOVE_ONLY), SIM(1200, 18, **dict(LIFE, Crashes='TRUE'))]),
           gen('Gen_Stake.cfg', 'MC_Stake.tla', universe_extra=STAKE_X,
-              quick=[SIM(80, 16, **REMOVE_ONLY)],
-              thorough=[SIM(1500, 18, **dict(REMOVE_ONLY, Crashes='TRUE'))])],
-    assume=['a removal deletes fewer than 20000 credits, i.e. it completes in one removal round after the first phase'],
+              quick=[SIM(80, 16, **REMOVE_ONLY), SIM(60, 16, **dict(REMOVE_ONLY, **MS))],
+              thorough=[SIM(1500, 18, **dict(REMOVE_ONLY, Crashes='TRUE')), SIM(1500, 18, **dict(REMOVE_ONLY, **MS))]),
+          gen('Gen_Pay.cfg', 'MC_Pay.tla',
+              quick=[SIM(60, 16, **dict(REMOVE_ONLY, **MS))],
+              thorough=[SIM(1500, 18, **dict(REMOVE_ONLY, **MS)), SIM(1000, 18, **dict(LIFE, Crashes='TRUE', **MS))]),
+          gen('Gen_Pay.cfg', 'MC_Pay.tla', mode='free', filter=no_crash,
+              quick=[SIM(40, 16, **LIFE)],
+              thorough=[SIM(1500, 18, **LIFE)]),
+          gen('Gen_Stake.cfg', 'MC_Stake.tla', universe_extra=STAKE_X, mode='free', filter=no_crash,
+              quick=[SIM(40, 16, **REMOVE_ONLY)],
+              thorough=[SIM(1500, 18, **LIFE)])],
+    assume=['a removal deletes fewer than 20000 credits, i.e. it completes in one removal round after the first phase',
+            'with MultiStep the removal is two model steps (RemoveStepA: phase 1, RemoveStepB: the round of phase 2) and block steps fall between them; mode "free": follower and worker run without step gates, only the final ledger is compared'],
 )
 PROPS['C07'] = plan_check(PLAN_C07)
 PROPS['C08'] = plan_check(PLAN_C08)
